@@ -232,7 +232,7 @@ def linearise(roots):
 
 @rule(
     "FACT-DRIVER",
-    ["C01", "C04", "C09", "C12", "C15"],
+    ["C01", "C04", "C09", "C12", "C15", "C19"],
     "compute_argument_factorization (driver, argument ordering, graph_insert, dispatch of the handlers, target / component "
     "bookkeeping, dependencies) interpreted on sample scalar graphs whose expressions carry a polynomial meaning: per component, "
     "sum over target nodes of factor * product of the arguments of the key recorded at the same position equals the integrand; "
@@ -439,14 +439,28 @@ def _fact_driver(repo, res):
     um = Indexed(Argument(1), "u-", restriction="-")
     scenario("interior facet: jump(u)*jump(v)", [(um * a + up * b) * vm + (up * vp) * c_ + (vp * um)], 2, [vp, vm, up, um])
     # zero form of arity 1: no factors at all
-    key = f"{f.key}:argument-free integrand of a linear form"
+    key = f"{f.key}:zero integrand of a linear form"
     res.ob(key)
     try:
-        F, _ = run([a * b], 1)
+        F, _ = run([Zero()], 1)
         if any(v.get("target") for v in F.f["nodes"].values()):
-            res.fail(key, "an argument-free integrand of a linear form produces target factors", loc)
+            res.fail(key, "a zero integrand of a linear form produces target factors", loc)
     except Raised as e:
-        res.fail(key, f"compute_argument_factorization raises ({e.what}) on an argument-free integrand of a linear form", loc)
+        res.fail(key, f"compute_argument_factorization raises ({e.what}) on a zero integrand of a linear form", loc)
+    # a component that vanishes identically contributes nothing; a component that does not depend on the argument but is not zero has no place in
+    # A[point][component][dof] and must be rejected like the mixed-rank sum above (expressions are not arity-checked by UFL): treating it as zero
+    # silently drops it
+    scenario("rank-1 expression with a zero component", [(a * w0), Zero()], 1, [w0])
+    key = f"{f.key}:argument-free component of a rank-1 expression rejected"
+    res.ob(key)
+    for label_, roots_ in (("as_vector([f*v, g])", [a * w0, b]), ("as_vector([g*h, v])", [a * b, w0])):
+        try:
+            run(roots_, 1, f"{label_} (rejected)")
+            res.fail(key, f"the rank-1 expression {label_} is factorised with its argument-free component treated as zero: the kernel leaves that component of A "
+                     "untouched although its value is not zero, and nothing is reported", loc, props=("C04", "C19"))
+            break
+        except Raised:
+            pass
 
 
 @rule(
